@@ -337,7 +337,7 @@ def warmup():
 def run(ctx):
     thorough = ctx.tier == "thorough"
     warmup()
-    ctx.proofs()
+    ctx.proofs(["C11/Props.v", "C04/PropsTie.v"])
     N = 9000 if thorough else 520
     NR = 1500 if thorough else 100
     cases = [normalise(c) for c in FIXED]
